@@ -52,6 +52,8 @@ ASSUMPTIONS = [
     "(per-item re-seeding) over all worker assignments and per-worker orders of n <= 4 items",
     "utterance ids: printable ASCII without white space ('<utt_id> <path>' lines); the manifests handed "
     "to manifest_subsets hold only ids of the same map, one per line, as the tool itself writes them",
+    "every real run (uninterrupted, counting, interrupted, resumed, 0-3 workers) is a separate interpreter "
+    "with its own fixed str-hash salt (PYTHONHASHSEED 0, 1, 2, 3 ...): outputs may not depend on it",
     "sample values: one generic signal per utterance; one utterance is long enough for torch.save to "
     "split its file over two syscalls (mid-file kill point)",
 ]
@@ -69,12 +71,21 @@ CFG_SI = {"name": "si", "bank": {"name": "gabor", "num_filts": 2, "low_hz": 0.0,
 # against the manifest by anything but whole-line equality skips or recomputes the wrong utterance.
 SCENARIOS = {
     "stft3": dict(computer=CFG_STFT, utts=[("1_a", 40), ("1", 6000), ("11_a", 47)], extra=[]),
+    # the documented naming options, non-default: <prefix><id><suffix>.  The prefix is itself an id
+    # ("1"), so that the file NAME of the first utterance without its suffix ("11_a") is the ID of the
+    # third: whoever confuses names and ids (in the manifest, in the work list) is seen.
+    "stft3p": dict(computer=CFG_STFT, utts=[("1_a", 40), ("1", 6000), ("11_a", 47)],
+                   extra=["--file-prefix", "1", "--file-suffix", ".feat"]),
     "stft4": dict(computer=CFG_STFT, utts=[("1_a", 40), ("1", 6000), ("11_a", 47), ("a", 33)], extra=[]),
     "si5": dict(computer=CFG_SI, utts=[("b", 30), ("ab", 41), ("long", 9000), ("a", 36), ("p_abc", 52)],
                 extra=["--file-prefix", "p_", "--file-suffix", ".feat"]),
     "raw3w": dict(computer=None, utts=[("01", 50), ("1", 9000), ("10", 61)],
                   extra=["--num-workers", "2"], seed="0"),
 }
+# str-hash salt (PYTHONHASHSEED) of the interpreters of the real runs: a user's interpreters are salted at
+# random, so the uninterrupted run, the interrupted run and the resume never share a salt; fixed and
+# different values keep the verdict deterministic (./check itself pins 0, which a child would inherit)
+SALTS = dict(reference="0", count="1", kill="2", resume="3", kill2="4", resume2="5")
 SEED_OPT = "3"                      # scenarios without a "seed" entry
 SEED_OPTS = ("0", "3")              # manifest_subsets axis: --seed 0 is a seed like any other
 
@@ -86,6 +97,15 @@ ID_SETS = {
     "numeric": ["1", "01", "1.0", "10"],
     # case, an id that contains the default file suffix, an id that contains another id + separator
     "affix": ["a", "A", "a.pt", "x-a"],
+}
+
+
+# file naming axis of manifest_subsets: the documented options --file-prefix / --file-suffix
+NAMINGS = {
+    "default": lambda ids: [],
+    "both": lambda ids: ["--file-prefix", "p_", "--file-suffix", ".feat"],
+    # the prefix is one of the ids: <prefix><id> of one utterance may be the id of another
+    "id_prefix": lambda ids: ["--file-prefix", ids[0]],
 }
 
 
@@ -168,19 +188,21 @@ class Injector:
     def __init__(self, kind):
         self.kind = kind
 
-    def count(self, lay, args):
+    def count(self, lay, args, salt=None):
+        salt = SALTS["count"] if salt is None else salt
         if self.kind == "strace":
-            r, ev = crash.strace_count(args, lay.paths())
+            r, ev = crash.strace_count(args, lay.paths(), hashseed=salt)
             ev = [(c, lay.norm(p)) for c, p in ev]
         else:
-            r, ev = crash.py_count(args)
+            r, ev = crash.py_count(args, hashseed=salt)
             ev = [(c, lay.norm(p)) for c, p in ev]
         return r, ev
 
-    def kill(self, lay, args, name, k, sg):
+    def kill(self, lay, args, name, k, sg, salt=None):
+        salt = SALTS["kill"] if salt is None else salt
         if self.kind == "strace":
-            return crash.strace_kill(args, lay.paths(), name, k, sg)
-        return crash.py_kill(args, name, k, sg)
+            return crash.strace_kill(args, lay.paths(), name, k, sg, hashseed=salt)
+        return crash.py_kill(args, name, k, sg, hashseed=salt)
 
     def points(self, events):
         """-> [(name, k, index into events)] for every state-changing event"""
@@ -221,7 +243,7 @@ def build_reference(scn, seed, inj):
 
         def plain():
             lay = Layout(os.path.join(d, "a"), scn, seed)
-            r = crash.plain(lay.args())
+            r = crash.plain(lay.args(), hashseed=SALTS["reference"])
             res["plain"] = (r, lay.read_files(), lay.manifest_ids())
 
         def counting():
@@ -449,7 +471,7 @@ def _kill_point(pt, ctx, seed):
             case = dict(pt)
             viol += check_after_kill(lay, ref, st, infl, tags, case)
             marks = mark(lay, st)
-            r2 = crash.plain(lay.args())
+            r2 = crash.plain(lay.args(), hashseed=SALTS["resume"])
             runs += 1
             viol += check_after_resume(lay, ref, st, marks, r2, tags, case)
             evals = 1
@@ -479,7 +501,7 @@ def _kill_point(pt, ctx, seed):
             lay.clone_state_to(lay2)
             infl2, _ = inflight(ev2, name2, k2, lay2)
             case = dict(pt, second=[name2, k2])
-            ra = inj.kill(lay2, lay2.args(), name2, k2, sg)
+            ra = inj.kill(lay2, lay2.args(), name2, k2, sg, salt=SALTS["kill2"])
             runs += 1
             if ra["timed_out"]:
                 raise core.HarnessError("second kill run timed out: %r" % (case,))
@@ -488,7 +510,7 @@ def _kill_point(pt, ctx, seed):
             # first-order sub-check; here only ids that are in the manifest must be right (I1), etc.
             viol += check_after_kill(lay2, ref, st2, infl2, tags, case, prev_must=must1)
             marks = mark(lay2, st2)
-            rb = crash.plain(lay2.args())
+            rb = crash.plain(lay2.args(), hashseed=SALTS["resume2"])
             runs += 1
             viol += check_after_resume(lay2, ref, st2, marks, rb, tags, case)
             evals += 1
@@ -509,7 +531,8 @@ def _workers_point(pt, ctx, seed):
     d = tempfile.mkdtemp(prefix="verif-")
     try:
         lay = Layout(os.path.join(d, "w"), scn, seed)
-        r = crash.plain(lay.args(manifest=(n % 2 == 1), extra=["--num-workers", str(n)]))
+        r = crash.plain(lay.args(manifest=(n % 2 == 1), extra=["--num-workers", str(n)]),
+                        hashseed=str(10 + n))
         case = dict(scn=scn, num_workers=n)
         viol = []
         if r["rc"] != 0:
@@ -661,11 +684,12 @@ def _manifest_subsets(pt, seed, only=None):
     from pydrobert.speech import command_line as cl
 
     name, perm, seed_opt = pt[0], tuple(pt[1]), str(pt[2])
+    naming = pt[3] if len(pt) > 3 else "default"
     ids = [ID_SETS[name][i] for i in perm]
     n = len(ids)
-    scn = "_ms_%s_%s_%s" % (name, "".join(map(str, perm)), seed_opt)
-    SCENARIOS[scn] = dict(computer=CFG_STFT, utts=[(u, 30 + 7 * i) for u, i in zip(ids, perm)], extra=[],
-                          seed=seed_opt)
+    scn = "_ms_%s_%s_%s_%s" % (name, "".join(map(str, perm)), seed_opt, naming)
+    SCENARIOS[scn] = dict(computer=CFG_STFT, utts=[(u, 30 + 7 * i) for u, i in zip(ids, perm)],
+                          extra=NAMINGS[naming](ID_SETS[name]), seed=seed_opt)
     d = tempfile.mkdtemp(prefix="verif-")
     viol, evals, nontriv, obs = [], 0, 0, set()
     try:
@@ -700,10 +724,12 @@ def _manifest_subsets(pt, seed, only=None):
                 torch.randn(mask + 1)
                 r = computers_call(cl.signals_to_torch_feat_dir, lay.args())
                 case = dict(kind="manifest_subsets", idset=name, perm=list(perm), seed_opt=seed_opt,
-                            only=[mask, rev])
+                            naming=naming, only=[mask, rev])
                 prefix = listed == ids[:len(listed)]
                 tags = dict(level="tool_inprocess", manifest_is_map_prefix=prefix,
                             manifest_nonempty=bool(listed))
+                if naming != "default":
+                    tags["naming"] = naming
                 if r[0] != "ok" or r[1]:
                     viol.append(core.violation(
                         dict(tags, what="resume_differs", how="exit_code"),
@@ -753,10 +779,20 @@ def _manifest_subsets(pt, seed, only=None):
                         dict(tags, what="manifest_lists_incomplete",
                              how="unknown_id" if unknown else "duplicate_id"),
                         "map order %r, manifest before %r, after %r" % (ids, lines, now), case))
+                # the end of the run is an interruption point too (nothing in flight): every utterance
+                # whose file this run completed is listed (I2), next to the lines that were there
+                unlisted = [u for u in ids if u not in listed and u not in bad and u not in now]
+                if now[:len(lines)] != lines or unlisted:
+                    viol.append(core.violation(
+                        dict(tags, what="manifest_misses_completed"),
+                        "I2: map order %r, options %r, manifest before the run %r; the run completed the "
+                        "files of %r, and the manifest afterwards is %r" % (
+                            ids, lay.extra, lines, [u for u in ids if u not in listed and u not in bad], now),
+                        case))
                 obs.add((len(listed), prefix))
         return core.result(viol, evals=evals, nontrivial_count=nontriv,
-                           obs=[name, seed_opt, sorted(obs)], impl_calls=evals + 1,
-                           sample=dict(idset=name, map_order=ids, seed_opt=seed_opt, inner="every subset of the ids in the "
+                           obs=[name, seed_opt, naming, sorted(obs)], impl_calls=evals + 1,
+                           sample=dict(idset=name, map_order=ids, seed_opt=seed_opt, options=lay.extra, inner="every subset of the ids in the "
                                        "manifest x {map order, reversed} of its lines"))
     finally:
         shutil.rmtree(d, ignore_errors=True)
@@ -812,6 +848,18 @@ def _prefix_point(pt, ctx, seed):
 
 # ------------------------------------------------------------------
 
+class _LazyRefs(dict):
+    """scenario -> build_reference(scenario), built when first asked for"""
+
+    def __init__(self, seed, inj):
+        dict.__init__(self)
+        self.seed, self.inj = seed, inj
+
+    def __missing__(self, scn):
+        self[scn] = build_reference(scn, self.seed, self.inj)
+        return self[scn]
+
+
 def _build_references(scns, seed, inj):
     import threading
 
@@ -851,7 +899,7 @@ def subchecks(tier, seed, only=None):
         ASSUMPTIONS.append(note)
 
     want = lambda name: only is None or only == name  # noqa: E731
-    first = ["stft3"] if quick else ["stft4", "si5", "raw3w"]
+    first = ["stft3", "stft3p"] if quick else ["stft4", "stft3p", "si5", "raw3w"]
     second = [] if quick else ["stft4"]
     wscn = "stft3" if quick else "stft4"
     need = set()
@@ -863,12 +911,18 @@ def subchecks(tier, seed, only=None):
         need.add(wscn)
     if want("byte_prefixes") and inj.kind == "python":
         need.add(first[0])
-    refs = _build_references(sorted(need), seed, inj)
+    replaying = only is not None      # ./check --replay: the points are not enumerated, only one case is run
+    if replaying:
+        refs = _LazyRefs(seed, inj)   # the reference runs of the case's scenario only, when it asks for them
+        if not (only == "byte_prefixes" and inj.kind == "python"):
+            need = set()
+    else:
+        refs = _build_references(sorted(need), seed, inj)
     ctx = dict(refs=refs, inj=inj)
 
     sigs = ["KILL", "INT"]
     kpts, kaxes = [], {}
-    if want("kill_resume"):
+    if want("kill_resume") and not replaying:
         for scn in first:
             pts = inj.points(refs[scn]["events"])
             kaxes[scn] = dict(
@@ -882,7 +936,7 @@ def subchecks(tier, seed, only=None):
                 for c, k, _i in pts:
                     kpts.append(dict(scn=scn, name=c, k=k, sig=sg))
     k2pts = []
-    if want("kill_resume_2nd"):
+    if want("kill_resume_2nd") and not replaying:
         for scn in second:
             for sg in sigs:
                 for c, k, _i in inj.points(refs[scn]["events"]):
@@ -916,20 +970,23 @@ def subchecks(tier, seed, only=None):
         "single-process run; one OS schedule each (DESIGN section 4)",
         axes=dict(num_workers=[0, 1, 2, 3], scenario=wscn), kind="real_runs", chunk=1,
         replay=lambda case: _workers_point((case["scn"], case["num_workers"]), ctx, seed)))
-    spts = [(name, perm, so) for name in ID_SETS for perm in itertools.permutations(range(4))
-            for so in SEED_OPTS]
+    spts = [(name, perm, so, nm) for name in ID_SETS for perm in itertools.permutations(range(4))
+            for so in SEED_OPTS for nm in NAMINGS]
     scs.append(core.SubCheck(
         "manifest_subsets", spts, lambda p: _manifest_subsets(p, seed),
-        "id set x EVERY order of its 4 ids in the map x --seed {0, 3}; inner: EVERY subset of the ids already listed in "
+        "id set x EVERY order of its 4 ids in the map x --seed {0, 3} x file naming {default, --file-prefix p_ "
+        "--file-suffix .feat, --file-prefix <the first id of the set>}; inner: EVERY subset of the ids already listed in "
         "the manifest (files of listed ids hold a sentinel) x {lines in map order, reversed}; the real "
         "tool, in-process, --seed + dither: listed files untouched (I4), every other file equals the "
-        "uninterrupted run (I3), no unknown / duplicate manifest line; non-trivial = the manifest is "
+        "uninterrupted run (I3), no unknown / duplicate manifest line, and at the end of the run the manifest "
+        "holds the lines it had plus every id whose file the run completed (I2, nothing in flight); non-trivial = the manifest is "
         "neither empty nor complete",
         axes=dict(id_sets=ID_SETS, map_orders="all 24 permutations", seed=list(SEED_OPTS),
+                  naming={k: v(["<first id>"]) for k, v in NAMINGS.items()},
                   manifest="all 16 subsets",
                   manifest_line_order=["map order", "reversed"]),
-        replay=lambda case: _manifest_subsets((case["idset"], tuple(case["perm"]), case["seed_opt"]),
-                                              seed, only=case["only"]),
+        replay=lambda case: _manifest_subsets((case["idset"], tuple(case["perm"]), case["seed_opt"],
+                                               case.get("naming", "default")), seed, only=case["only"]),
         kind="manifests"))
     scs.append(core.SubCheck(
         "mechanism", mpts, lambda p: _mechanism(p, seed),
